@@ -226,7 +226,7 @@ class _Builder:
                 if i:
                     toks.append(",")
                 toks.append(s)
-        depth = rng.choice([0, 1, 1, 2, 2, 3]) if self.fields_pool else 0
+        depth = rng.choice(o.get("depths", [0, 1, 1, 2, 2, 3])) if self.fields_pool else 0
         toks += self.conditional(depth)
         toks.append("}")
         p.tokens = toks
